@@ -3,8 +3,11 @@
 DIR="$(cd "$(dirname "$0")/.." && pwd)"; cd "$DIR"
 [ -z "$KEEP_EVIDENCE" ] && export VERIF_EVIDENCE_DIR="$DIR/replays/evidence-thorough"
 ids="$@"; [ -z "$ids" ] && ids=$(python3 -c "import json;print(' '.join(c['property_id'] for c in json.load(open('MANIFEST.json'))['checks']))")
+overall=0
 for p in $ids; do
   t0=$(date +%s); out=$(./check $p --tier thorough 2>&1); rc=$?
   echo "$p rc=$rc $(( $(date +%s) - t0 ))s $(echo "$out" | grep '^\[' | cut -c1-160)"
+  [ $rc -ne 0 ] && overall=1
   [ $rc -ne 0 ] && echo "$out" | grep -v "^NOT-PROVED" | tail -n 6 | cut -c1-300
 done
+exit $overall
